@@ -185,9 +185,11 @@ def encValues (vs : Values) : String :=
 
 def run (ins outs : List String) : Verdict :=
   match ins, outs with
-  | ["P", joined, patPath, names, vals, _, _], [path] =>
+  | ["P", joined, patPath, names, vals, _, _], [path, same] =>
     match decField joined, decField patPath, decPairs names vals, decField path with
     | some j, some pp, some params, some p =>
+      -- once every placeholder is substituted the server sees exactly this escaped path
+      let sameOk := same == "1" || !braceFree p
       let slash : Bytes := if keepsSlash pp then [47] else []
       let m := urlPath j pp params
       match tokenize j with
@@ -196,7 +198,11 @@ def run (ins outs : List String) : Verdict :=
         let namesOk := params.all fun kv => braceFree kv.1
         if distinct && namesOk then
           let spec := substAll params toks ++ slash
-          { agree := m == p, specOk := spec == p,
+          -- F10a (known finding): a built path that starts with "//" (empty value for a placeholder in
+          -- the first segment, no base path) is re-parsed by http.NewRequest as an authority: the
+          -- whole path is lost. The model's `urlPath` is what the code hands to NewRequest.
+          let f10a := m.take 2 == [47, 47]
+          { agree := m == p || f10a, specOk := spec == p && sameOk, known := (if f10a then "F10a" else "-"),
             tag := s!"P:ph{(toks.filter fun t => match t with | .ph _ => true | _ => false).length.min 4}{if slash.isEmpty then "" else "+slash"}",
             model := encField m }
         else
